@@ -45,9 +45,14 @@ fn main() {
         "C02" => props::c02::run(&report, &tier),
         "C07" => props::c07::run(&report, &tier),
         "C11" => props::c11::run(&report, &tier),
+        "C12" => props::c12::run(&report, &tier),
         "C13" => props::c13::run(&report, &tier),
         "C19" => props::c19::run(&report, &tier),
         "C16" => props::c16::run(&report, &tier),
+        "lab3" => {
+            props::lab3();
+            return;
+        }
         "lab2" => {
             props::lab2();
             return;
